@@ -52,7 +52,7 @@ def emulsion_ops(draw, dim, cls0, n):
             st.sampled_from(
                 ["append", "append", "append", "append_nocopy", "extend", "construct", "copy", "copy_min", "slice", "add", "remove_small",
                  "remove_overlapping", "linked_write", "merge", "clear", "reorder", "reject_dim", "reject_layout", "reject_extend", "accept_inconsistent",
-                 "mutate_owned", "mutate_owned", "mutate_derived", "mutate_source", "getitem", "queries"]
+                 "mutate_owned", "mutate_owned", "mutate_derived", "mutate_source", "getitem", "queries", "touch_then_remove"]
             )
         )
         op = {"op": name}
@@ -67,6 +67,13 @@ def emulsion_ops(draw, dim, cls0, n):
             op["s"] = _slice(draw)
         elif name == "remove_overlapping":
             op["md"] = draw(st.sampled_from([0.0, 0.0, -0.5, 0.5]))
+        elif name == "touch_then_remove":
+            # a droplet is added whose surface is exactly the minimal distance away from an existing member (displaced along the
+            # first axis only, so the distance is a plain coordinate difference), then overlaps are removed with that distance
+            op["i"] = draw(_idx)
+            op["r"] = draw(st.sampled_from([0.5, 1.0, 2.0, 0.25]))
+            op["md"] = draw(st.sampled_from([0.0, 0.0, -0.5, 0.5]))
+            op["side"] = draw(st.sampled_from([-1.0, 1.0]))
         elif name == "linked_write":
             op["i"] = draw(_idx)
             op["r"] = draw(st.sampled_from([0.25, 0.75, 3.0]))
@@ -269,7 +276,10 @@ class C20(Property):
             elif op["op"] not in ("queries", "getitem", "get_emulsion", "get_position"):
                 structural += 1
         ctx.nontrivial = probe_after
+        self._exact_touch = False
         getattr(self, "_run_" + m)(spec, ctx)
+        if self._exact_touch:
+            ctx.cls("overlap-removal-with-exactly-touching-droplets")
 
     # ---------------- Emulsion -------------------------------------------------------------------
     def _run_emulsion(self, spec, ctx):
@@ -333,7 +343,17 @@ class C20(Property):
             elif name == "remove_small":
                 E.remove_small(op["r"])
                 M[:] = [e for e in M if float(dec(e)["radius"]) > op["r"]]
-            elif name == "remove_overlapping":
+            elif name in ("remove_overlapping", "touch_then_remove"):
+                if name == "touch_then_remove" and len(E):
+                    base = E[op["i"] % len(E)]
+                    nd = base.copy()
+                    nd.radius = op["r"]
+                    newpos = np.array(base.position, float)
+                    newpos[0] = newpos[0] + op["side"] * (float(base.radius) + op["r"] + op["md"])
+                    nd.position = newpos
+                    E.append(nd)
+                    M.append(enc(nd))
+                    owned.append(nd)
                 before = [enc(d) for d in E]
                 E.remove_overlapping(op["md"])
                 after = [enc(d) for d in E]
@@ -357,13 +377,23 @@ class C20(Property):
                     cmax = max([abs(x) for p in P for x in p] + [0.0])
                     spread = max([float(np.abs(p - P[0]).max()) for p in P] + [0.0])
                     sl = 1e-9 * (1 + spread + max(Rr + [0.0])) + 64 * np.finfo(float).eps * cmax
+                    def dyadic(v):
+                        return abs(v) < 2**20 and float(v * 1024).is_integer()
+
+                    okmd = dyadic(float(md))
+                    ex = [okmd and all(dyadic(float(x)) for x in P[i]) and dyadic(Rr[i]) for i in range(len(P))]
+                    # two droplets with dyadic parameters whose centres differ along one axis only: their surface distance is exact, so
+                    # such pairs - also exactly touching ones - are judged without slack
+                    slk = lambda i, j: 0.0 if (ex[i] and ex[j] and int(np.count_nonzero(P[i] != P[j])) <= 1) else sl
                     surf = lambda i, j: float(np.linalg.norm(P[i] - P[j])) - Rr[i] - Rr[j]
+                    if any(slk(i, j) == 0.0 and surf(i, j) == md for i in range(len(P)) for j in range(i + 1, len(P))):
+                        self._exact_touch = True
                     for a_ in range(len(keep)):
                         for b_ in range(a_ + 1, len(keep)):
-                            if surf(keep[a_], keep[b_]) < md - sl:
+                            if surf(keep[a_], keep[b_]) < md - slk(keep[a_], keep[b_]):
                                 fail("remove_overlapping:still-too-close", f"survivors {keep[a_]},{keep[b_]} closer than {md}")
                     for k in range(len(before)):
-                        if k not in keep and not any(j != k and Rr[j] >= Rr[k] and surf(k, j) < md + sl for j in range(len(before))):
+                        if k not in keep and not any(j != k and Rr[j] >= Rr[k] and surf(k, j) < md + slk(k, j) for j in range(len(before))):
                             fail("remove_overlapping:unjustified", f"droplet {k} (r={Rr[k]}) removed although no at-least-as-large droplet is closer than {md}")
                     if before:
                         kmax = int(np.argmax(Rr))
